@@ -4,6 +4,7 @@ import zz "symgo/zzverif"
 
 // Harness_Selftest runs one case with symbolic inputs pinned to the given values and asserts the native result.
 func Harness_Selftest() {
+	Debug = zz.Param("debug", 0) == 1
 	names := Names()
 	f := Cases[names[zz.Param("case", 0)]]
 	x := zz.NondetI64("x")
